@@ -7,7 +7,7 @@ import Mathlib.Algebra.Field.Rat
 import Mathlib.Tactic.NormNum
 /-! # C15 — kernel smoothing is a renormalised local weighted mean
 
-Property theorems only (helpers are in `Lemmas/Filter.lean` and `Lemmas/FilterNp.lean`, the model in
+Property theorems only (helpers are in `Lemmas/Filter.lean`, `FilterNp.lean`, `FilterShort.lean`, `FilterKernels.lean`, the model in
 `Model/Filter.lean`). Scalars: any linearly ordered field (`ℚ`, `ℝ`); NaN is `none`. Vocabulary (defined
 in `Lemmas/Filter.lean`):
 
@@ -17,14 +17,23 @@ in `Lemmas/Filter.lean`):
 * `filterWindow v k boundary` — `Filter.execute` once the kernel has been turned into the window `k`
   (`boundary = kernel.filterBoundary()`, `false` for a weight list); `execute` — the whole method on the
   values of the input feature; `operate` — `track.operate(Operator.FILTER, af_in, kernel, af_out)` on a
-  track of named signals (kernel possibly a feature name); `filterSeq` / `filterSeqCall` / `smooth` /
-  `session` — `filter_seq` on a list of names / with its `dim` argument and the module-level state /
-  `Track.smooth` / several calls in one process.
+  track of named signals (kernel possibly a feature name); `operateArgs` — the argument forms of
+  `Track.operate` (output name omitted, lists of names); `filterSeq` / `filterSeqCall` / `smooth` /
+  `session` / `filterSeqRepeat` — `filter_seq` on a list of names / with its `dim` argument and the
+  module-level state / `Track.smooth` / several calls in one process / several calls on the same track.
 
 Domain (`InDomain`): odd window, non-negative weights, every collected norm positive, and a signal
-at least as long as the half window when the boundary values are copied. Outside it (a zero norm) the
-theorems say what happens instead: `zero_norm_fails`, `list_zero_weights`, `list_no_sample_fails`,
-`window_zero_sum_fails`. -/
+at least as long as the *half* window when the boundary values are copied — no other condition on the
+length: tracks shorter than the window are covered (`short_track_filtered`, `short_track_unchanged`,
+`execute_short_track`, `smooth_short_track`). Outside it the theorems say what happens instead: a zero norm
+(`zero_norm_fails`, `list_zero_weights`, `list_no_sample_fails`, `window_zero_sum_fails`), a track shorter
+than the half window with copied boundaries (`short_track_index_error`, `smooth_too_short_fails`), a float
+given as kernel (`number_kernel_refused`).
+
+Kernel functions: Uniform / Triangular / Epanechnikov (`builtin_kernels`, `builtin_kernel_windows`), Cubic /
+Spheric (`pow_kernels`, `pow_kernel_windows`; `math.pow` with an integer exponent is a product), Gaussian /
+Exponential (`exp_kernel_windows`, `smooth_gaussian`; `math.exp` is any positive-valued function — the one
+assumption on libm), user-defined (`user_kernel_window`, `window_of_nonneg_kernel`). -/
 set_option linter.unusedSectionVars false
 namespace TV.C15
 open TV.Filter
@@ -642,6 +651,21 @@ theorem operate_list_is_mean (t : Sigs α) (kern : KArg α) (w : List α) (b : B
   · intro ks outs hne
     unfold operateArgs
     simp [hne]
+
+/-- **A float given as kernel** (the comment above `filter_seq` documents "a float number giving the half width of
+a rectangular window"): it is neither an `int`, a list nor a Kernel object; `Filter.execute` raises `TypeError` at
+`len(kernel)` during the kernel preparation — before the track, the names or the output feature are looked at —
+so `filter_seq` fails at the first dimension (and returns the track untouched when `dim` is empty). Never a value. -/
+theorem number_kernel_refused (t : Sigs α) (af : String) (rest : List String) :
+    filterSeq t .num (af :: rest) = .error .kernelType ∧ filterSeq t .num [] = .ok t ∧
+    ∀ afIn afOut, operate t afIn .num afOut = .error .kernelType := by
+  have hop : ∀ afIn afOut, operate t afIn (KSrc.num : KSrc α) afOut = .error .kernelType := by
+    intro afIn afOut; unfold operate resolve; rfl
+  refine ⟨?_, by unfold filterSeq; simp only; rw [seqLoop], hop⟩
+  unfold filterSeq
+  simp only
+  rw [seqLoop]
+  split <;> simp [hop]
 
 /-! ## The `dim` argument, module-level state, sessions, `Track.smooth` -/
 
